@@ -7,6 +7,7 @@ import numpy as np
 
 from omv.core import ir
 from omv.props import c17_recording as c17
+from omv import lib_c19_special as special
 
 ID = 'C19'
 LEVEL = 'model_checking'
@@ -21,7 +22,9 @@ RULE = ('scenarios = 2 models (feed-forward with promotion + unit conversion + s
         'set_val + run_model, the recording Problem itself after overwriting its state}: load_case, '
         'then read every recorded input and output, then run_model for cases recorded at a consistent '
         'point; states = (case, target) pairs, transitions = load_case calls, traces = pairs on which '
-        'all comparisons held; non-trivial = case holds >= 2 variables and the target state differed '
+        'all comparisons held; plus two hand-built families (omv/lib_c19_special.py): every subset of '
+        '4 prefix-named siblings overriding System.load_case x recording source, and 3 instances of '
+        'one group class x every recorder placement; non-trivial = case holds >= 2 variables and the target state differed '
         'from the recorded one before the load')
 LEVEL_TEXT = ('Each recorded case is loaded into every target phase; get_val must return the recorded '
               'value for every recorded output and (absolute) input, and for driver/problem cases a '
@@ -55,6 +58,10 @@ def cases(tier, seed):
                     out.append({'model': mname, 'attach': [pt], 'driver': drv, 'hist': hist,
                                 'pattern': [list(pat[0]), list(pat[1])], 'flips': flips,
                                 'palette': seed % 3, 'all_cases': tier == 'thorough'})
+    for c in special.families(tier):
+        c = dict(c)
+        c['special'] = True
+        out.append(c)
     return out
 
 
@@ -83,6 +90,8 @@ def _target(sc, kind, recording_prob):
 
 
 def check_case(sc):
+    if sc.get('special'):
+        return special.check(sc)
     cls = '%s/%s/%s/%s' % (sc['model'], sc['attach'][0], sc['driver'],
                            'filtered' if sc['pattern'][0] != ['*'] else 'full')
     vio = []
